@@ -519,7 +519,7 @@ PROPS["C15"] = dict(
     streams=["C15"],
     compare=cmp_laws,
     classify=lambda case, model, why: dict(kind="failing-input", why=(case[1][:300] if "kind=law" in case[2] else why)),
-    gate_imports=EVAL_GATE + "From Coq Require Import Ascii.\nFrom Cel.Model Require Import Builtins.\nFrom Cel.Proofs Require Import NumericProofs DurationProofs.\nOpen Scope Z_scope.",
+    gate_imports=EVAL_GATE + "From Coq Require Import Ascii.\nFrom Cel.Model Require Import Builtins.\nFrom Cel.Proofs Require Import NumericProofs DurationProofs DurationRoundtrip.\nOpen Scope Z_scope.",
     exhaustive=False,
     rule="a case is a duration (boundary set: 0, +-1ns ... i64::MIN/MAX and neighbours; log-uniform random "
          "nanosecond counts of both signs) observed through string(d), duration(string(d)), +, -, comparisons, "
